@@ -55,4 +55,7 @@ def templates(cfg):
         T(f"{dn}.const_then_group", lambda p, t, u, d=d: t >> p.mutate(k=1) >> p.union(u >> p.mutate(k=2), distinct=d) >> p.group_by(p.C.k) >> p.summarize(n=p.count()))
         T(f"{dn}.hidden_then_rename", lambda p, t, u, d=d: t >> p.mutate(b=t.a + 1) >> p.union(u, distinct=d) >> p.rename({"b": "z"}) >> p.mutate(b=p.C.z))
         T(f"{dn}.hidden_then_join", lambda p, t, u, d=d: t >> p.mutate(b=t.a + 1) >> p.union(u, distinct=d) >> p.alias("x") >> p.inner_join(u >> p.alias("y") , p.C.a == p.C.a) if False else t >> p.mutate(b=t.a + 1) >> p.union(u, distinct=d) >> p.mutate(b=p.C.b * 2, c=p.C.a))
+    from . import temporal
+
+    out += temporal.templates_for("C07", cfg)
     return out
